@@ -118,7 +118,8 @@ def tlc_failed(out):
 
 FLAGMAP = {"replace": "replace", "atomic": "atomic", "cleanup": "cleanupOnFail", "keep": "keepHistory",
            "nohooks": "noHooks", "lim": "maxHistory", "ver": "version", "dry": "dryRun",
-           "takeown": "takeOwnership", "clientOnly": "clientOnly"}
+           "takeown": "takeOwnership", "clientOnly": "clientOnly", "createNS": "createNamespace",
+           "skipCRDs": "skipCRDs"}
 
 CHARTS = json.load(open(os.path.join(SPEC, "charts.json")))
 
@@ -129,6 +130,8 @@ def kind_of_id(oid):
             return c["res"][oid]["kind"]
         if oid in c["hooks"]:
             return c["hooks"][oid]["kind"]
+        if oid in c.get("crds", []):
+            return "CustomResourceDefinition"
     return "ConfigMap"
 
 
@@ -160,6 +163,14 @@ def tlc_scenario_to_harness(js, sid, driver):
         elif st["step"] == "op":
             m = st["m"]
             flags = {FLAGMAP[k]: v for k, v in m.items() if k in FLAGMAP}
+            if flags.get("dryRun") and m["kind"] in ("install", "upgrade"):
+                # the specification has one "dry" flag; the code has four spellings: spread them (deterministically)
+                h = int(hashlib.sha1(("%s/%d" % (sid, len(sc["steps"]))).encode()).hexdigest(), 16)
+                sp = ["DryRun", "client", "server", "true"][h % 4]
+                if sp != "DryRun" and not m.get("clientOnly"):
+                    flags["dryRun"] = False
+                    flags["dryRunOption"] = sp
+                flags["postRender"] = (h // 4) % 2 == 0
             s = {"op": m["kind"], "flags": flags, "proc": st.get("p", 1)}
             if m["chart"] != "none":
                 s["chart"] = m["chart"]
